@@ -184,9 +184,12 @@ def _maxpool(module, grad_input, grad_output):
 		_, indices = pool_func(module.input, module.kernel_size, module.stride, 
 			module.padding, module.dilation, module.ceil_mode, True)
 
-		unpool_ = unpool_func(grad_output[0] * delta_out, indices, 
-			module.kernel_size, module.stride, module.padding, 
-			list(module.input.shape))
+		# Scatter-add instead of max_unpool so that an input position that is
+		# the maximum of several (overlapping or dilated) windows accumulates
+		# the contribution of each window instead of keeping only the last.
+		unpool_ = torch.zeros_like(module.input).flatten(2).scatter_add_(2, 
+			indices.flatten(2), (grad_output[0] * delta_out).flatten(2)
+			).reshape(module.input.shape)
 		unpool_delta, unpool_ref_delta = torch.chunk(unpool_, 2)
 
 	unpool_delta_ = unpool_delta + unpool_ref_delta
